@@ -537,13 +537,6 @@ func (r *ReverseReader) ReadMessage(ctx context.Context, headersBuf []byte) (
 
 		// Try to read from current segment
 		msgSet, _, err := r.scanner.Scan()
-		if err == io.EOF && r.segments[r.segIdx].IsReplaced() {
-			// The cleaner swapped this segment for its compacted copy after
-			// the reader took its snapshot of the segment list. Its closed
-			// index reads as empty, which must not be mistaken for the end of
-			// the segment: the messages it held would silently be skipped.
-			return nil, 0, 0, 0, ErrSegmentReplaced
-		}
 		if err == io.EOF {
 			// Move to previous segment
 			if r.segIdx <= 0 {
